@@ -69,6 +69,8 @@ impl ArcSwap<Vec<(IpAddr, Arc<RtrMetricsData>)>> {
     pub fn load(&self) -> (r: Arc<Vec<(IpAddr, Arc<RtrMetricsData>)>>)
         ensures
             sorted_strict(r@), was_loaded(self, r@),
+            // an allocated Vec of 24-byte pairs is far shorter than usize::MAX
+            r@.len() < usize::MAX,
             forall|i: int| 0 <= i < r@.len() ==> has_entry(self, (#[trigger] r@[i]).0, r@[i].1),
     { unimplemented!() }
     // arc_swap::ArcSwap::store. Guarantee conditions of the protocol:
